@@ -32,6 +32,9 @@
 //                               r<k> k reset to default by ReleaseObject | d<k> heap object k destroyed | F a slab destroyed
 //    digest = every live object `k/refcount/payload[>next]` in identity order (`_` if none); identities k are first-seen numbers.
 //    then `|`, the tail's tokens, the verdict, `cur=<_curPoolSize>` and `L=<_numNodesInUse of each slab in slab-list order>`.
+//
+// A second op, `stress <lastrefs|churn|pop> <threads 1..8> <rounds>`, runs REAL UNSCHEDULED threads (see the comment at `class SObj`):
+// testing by provocation for races below the hook granularity, not part of the model; its result line is a constant.
 #include <string>
 #include <vector>
 #include <set>
@@ -39,6 +42,9 @@
 #include <algorithm>
 #include <deque>
 #include <signal.h>
+#include <sched.h>
+#include <atomic>
+#include <thread>
 #include <dlfcn.h>
 #include <pthread.h>
 #include <typeinfo>
@@ -364,10 +370,14 @@ static std::string lineTextOf(const Line & L)
 // so that the crash reproduces in `run` mode (./check re-runs the partial op file of a generator that died).
 static bool g_genMode = false;
 static std::string g_pendingLine;
+static const char * g_stressKind = NULL;          // the stress op in progress (for the note a sanitizer abort leaves behind)
+static std::atomic<uint64_t> g_stressRound(0);
+static unsigned g_stressThreads = 0;
 static void emitPendingAndDie()
 {
    static bool once = false;
    if ((g_genMode)&&(!once)&&(!g_pendingLine.empty())) {once = true; fputs(g_pendingLine.c_str(), stdout); fputc('\n', stdout); fflush(stdout);}
+   if (g_stressKind) fprintf(stderr, "rc: the abort happened in `stress %s %u ...` (unscheduled real threads), thread 0 was in round %llu\n", g_stressKind, g_stressThreads, (unsigned long long) g_stressRound.load()+1);
 }
 static void onFatalSignal(int sig) {emitPendingAndDie(); signal(sig, SIG_DFL); raise(sig);}
 extern "C" void __sanitizer_set_death_callback(void (*cb)(void));
@@ -638,6 +648,190 @@ struct Exec
 };
 
 // ---------------------------------------------------------------------------------------------------------------------
+// `stress <kind> <threads> <rounds>`: REAL, UNSCHEDULED threads (the verification hook is uninstalled: every hook site is
+// a pass-through), released together from a spin barrier.  This is a PROVOCATION, not a model of a schedule: it exists
+// for races below the hook granularity (e.g. a decrement and its zero-test split inside AtomicDecrement), which the
+// cooperative scheduler cannot place.  The outcome of a correct library is a constant (which the Lean engine echoes):
+//    lastrefs  every thread holds one counting Ref to the same fresh object (heap in even rounds, pooled in odd ones) and
+//              drops it right after the barrier: exactly one release per round          -> ok rounds=<n> released=<n>
+//    churn     threads obtain 3 pooled objects and release them, slab size 2, pool limit 0 (first half) / 1 (second half),
+//              so slabs are created and deleted constantly: nothing handed out twice, everything released once,
+//              PerformSanityCheck(), pool all free at the end                           -> ok rounds=<n> released=<3*threads*n>
+//    pop       every thread builds head->second in Refs of its own and pops it (a = a->next), heap / pooled alternating,
+//              no sharing: regression for /repo 3dba531 under real timing                -> ok rounds=<n> released=<2*threads*n>
+class SObj : public RefCountable
+{
+public:
+   std::atomic<int> state;     // 1 = constructed (heap) / handed out (pooled) and not yet released; 0 = released / free
+   std::atomic<int> owner;     // churn: who holds it (-1 = nobody)
+   uint32 canary;
+   bool isHeap;
+   Ref<SObj> next;
+   static std::atomic<uint64_t> released, doubleRelease, slabFreedWhileOut, damaged;
+
+   SObj() : state(0), owner(-1), canary(CANARY), isHeap(false) {}
+   SObj & operator=(const SObj & rhs)   // ObjectPool::ReleaseObject(): *obj = GetDefaultObject()
+   {
+      if (canary != CANARY) damaged++;
+      if (state.exchange(0) == 1) released++; else doubleRelease++;
+      next = rhs.next;
+      return *this;
+   }
+   virtual ~SObj()
+   {
+      if (canary != CANARY) damaged++;
+      if (isHeap) {if (state.exchange(0) == 1) released++; else doubleRelease++;}
+      else if (state.load() != 0) slabFreedWhileOut++;
+      canary = 0;
+   }
+private:
+   SObj(const SObj &);
+};
+std::atomic<uint64_t> SObj::released(0), SObj::doubleRelease(0), SObj::slabFreedWhileOut(0), SObj::damaged(0);
+typedef Ref<SObj> SObjRef;
+typedef ObjectPool<SObj> SDefPool;
+typedef ObjectPool<SObj, sizeof(SDefPool::ObjectSlabData) + 2*sizeof(SDefPool::ObjectNode)> SPool;   // 2 objects per slab
+
+struct SpinBarrier
+{
+   std::atomic<uint32_t> count, gen; uint32_t n;
+   explicit SpinBarrier(uint32_t k) : count(0), gen(0), n(k) {}
+   void wait()
+   {
+      const uint32_t g = gen.load(std::memory_order_acquire);
+      if (count.fetch_add(1, std::memory_order_acq_rel)+1 == n) {count.store(0, std::memory_order_relaxed); gen.store(g+1, std::memory_order_release);}
+      else {uint32_t spins = 0; while(gen.load(std::memory_order_acquire) == g) if (++spins > 2000) {sched_yield(); spins = 0;}}
+   }
+};
+
+struct Stress
+{
+   enum {MAXK = 8, PER_ROUND = 3};
+   std::atomic<uint64_t> handedOutTwice, wrongOwner, early, wrongCount, nullObj;
+   uint64_t firstBadRound;
+   Stress() : handedOutTwice(0), wrongOwner(0), early(0), wrongCount(0), nullObj(0), firstBadRound(0) {}
+
+   static SObj * make(SPool * pool, bool heap, std::atomic<uint64_t> & twice, std::atomic<uint64_t> & nul)
+   {
+      SObj * o;
+      if (heap) {o = new SObj; o->isHeap = true;} else o = pool->ObtainObject();
+      if (o == NULL) {nul++; return NULL;}
+      if (o->state.exchange(1) != 0) twice++;      // handed out while somebody else still has it
+      return o;
+   }
+
+   static bool poolAllFree(SPool & p) {for (SPool::ObjectSlab * sl = p._firstSlab; sl; sl = sl->GetNext()) if (sl->IsInUse()) return false; return true;}
+
+   std::string run(const std::string & kind, uint32_t k, uint64_t rounds)
+   {
+      g_stressKind = (kind == "lastrefs") ? "lastrefs" : ((kind == "churn") ? "churn" : "pop"); g_stressThreads = k; g_stressRound = 0;
+      SObj::released = 0; SObj::doubleRelease = 0; SObj::slabFreedWhileOut = 0; SObj::damaged = 0;
+      handedOutTwice = 0; wrongOwner = 0; early = 0; wrongCount = 0; nullObj = 0; firstBadRound = 0;
+      SPool * poolA = new SPool((kind == "churn") ? 0 : 1);
+      SPool * poolB = new SPool(1);
+      uint64_t expected = 0;
+      std::vector<std::thread> th;
+      SpinBarrier bar(k);          // these outlive the threads (joined below)
+      SObjRef slots[MAXK];
+      Stress * self = this;
+      if (kind == "lastrefs")
+      {
+         expected = rounds;
+         for (uint32_t i=0; i<k; i++) th.push_back(std::thread([=, &bar, &slots]() {
+            for (uint64_t r=0; r<rounds; r++)
+            {
+               if (i == 0)
+               {
+                  g_stressRound.store(r, std::memory_order_relaxed);
+                  SObj * o = make(poolA, (r%2) == 0, self->handedOutTwice, self->nullObj);
+                  for (uint32_t j=0; j<k; j++) slots[j].SetRef(o);
+                  if ((o)&&(o->GetRefCount() != k)) self->wrongCount++;
+               }
+               bar.wait();
+               slots[i].Reset();          // k threads drop the k last references at once
+               bar.wait();
+               if ((i == 0)&&(self->firstBadRound == 0)&&((SObj::released.load() != r+1)||(SObj::doubleRelease.load() != 0))) self->firstBadRound = r+1;
+            }
+         }));
+      }
+      else if (kind == "churn")
+      {
+         expected = (uint64_t) PER_ROUND * k * rounds;
+         for (uint32_t i=0; i<k; i++) th.push_back(std::thread([=, &bar]() {
+            bar.wait();
+            for (uint64_t r=0; r<rounds; r++)
+            {
+               SPool * pool = (r < rounds/2) ? poolA : poolB;
+               if (i == 0) g_stressRound.store(r, std::memory_order_relaxed);
+               SObjRef held[PER_ROUND];
+               for (int j=0; j<PER_ROUND; j++)
+               {
+                  SObj * o = make(pool, false, self->handedOutTwice, self->nullObj);
+                  if (o == NULL) continue;
+                  int nobody = -1;
+                  if (!o->owner.compare_exchange_strong(nobody, (int) i)) self->wrongOwner++;   // somebody else holds this very object
+                  if ((o->canary != CANARY)||(o->GetRefCount() != 0)||(o->next() != NULL)) self->early++;   // not in the default state
+                  held[j].SetRef(o);
+               }
+               for (int j=0; j<PER_ROUND; j++) if (held[j]())
+               {
+                  if (held[j]()->owner.exchange(-1) != (int) i) self->wrongOwner++;
+                  held[j].Reset();
+               }
+               if ((i == 0)&&((r & 1023) == 0)) pool->PerformSanityCheck();
+            }
+         }));
+      }
+      else   // pop
+      {
+         expected = (uint64_t) 2 * k * rounds;
+         for (uint32_t i=0; i<k; i++) th.push_back(std::thread([=, &bar]() {
+            bar.wait();
+            for (uint64_t r=0; r<rounds; r++)
+            {
+               const bool heap = ((r+i)%2) == 0;
+               if (i == 0) g_stressRound.store(r, std::memory_order_relaxed);
+               SObjRef a(make(poolB, heap, self->handedOutTwice, self->nullObj));
+               SObjRef b(make(poolB, ((r/2+i)%2) == 0, self->handedOutTwice, self->nullObj));
+               if ((a() == NULL)||(b() == NULL)) continue;
+               const SObj * second = b();
+               a()->next = b;
+               b.Reset();
+               a = a()->next;             // the pop: the old head held the only other reference to `second`
+               if ((a() != second)||(second->state.load() != 1)||(second->canary != CANARY)||(second->GetRefCount() != 1)) self->early++;
+               a.Reset();
+            }
+         }));
+      }
+      for (size_t i=0; i<th.size(); i++) th[i].join();
+      g_stressKind = NULL;
+
+      poolA->PerformSanityCheck(); poolB->PerformSanityCheck();
+      const bool allFree = poolAllFree(*poolA) && poolAllFree(*poolB);
+      const uint64_t rel = SObj::released.load();
+      const bool ok = (rel == expected)&&(SObj::doubleRelease.load() == 0)&&(SObj::slabFreedWhileOut.load() == 0)&&(SObj::damaged.load() == 0)&&(handedOutTwice.load() == 0)
+                    &&(wrongOwner.load() == 0)&&(early.load() == 0)&&(wrongCount.load() == 0)&&(nullObj.load() == 0)&&(allFree)&&(firstBadRound == 0);
+      if (allFree) {delete poolA; delete poolB;}   // else: ~ObjectPool would MCRASH; leak them (reported below)
+      if (ok) return "ok rounds=" + vh::u64s(rounds) + " released=" + vh::u64s(rel);
+      const std::string msg = "stress " + kind + " threads=" + vh::u64s(k) + " rounds=" + vh::u64s(rounds) + ": releases " + vh::u64s(rel) + " (expected " + vh::u64s(expected) + "), released twice " + vh::u64s(SObj::doubleRelease.load())
+         + ", handed out twice " + vh::u64s(handedOutTwice.load()) + ", wrong owner tag " + vh::u64s(wrongOwner.load()) + ", released early / not default " + vh::u64s(early.load()) + ", slab destroyed while an object was out " + vh::u64s(SObj::slabFreedWhileOut.load())
+         + ", wrong count " + vh::u64s(wrongCount.load()) + ", canary damaged " + vh::u64s(SObj::damaged.load()) + ", NULL from the pool " + vh::u64s(nullObj.load()) + (allFree ? "" : ", pool not all free at the end") + (firstBadRound ? (", first bad round " + vh::u64s(firstBadRound)) : std::string());
+      vh::oracleFail(msg);
+      return "fail released=" + vh::u64s(rel) + " expected=" + vh::u64s(expected);
+   }
+};
+
+static bool parseStress(const std::vector<std::string> & t, std::string & kind, uint64_t & k, uint64_t & rounds)
+{
+   if ((t.size() != 4)||(t[0] != "stress")) return false;
+   kind = t[1];
+   if ((kind != "lastrefs")&&(kind != "churn")&&(kind != "pop")) return false;
+   if ((!vh::toU64(t[2], k))||(k < 1)||(k > Stress::MAXK)) return false;
+   if ((!vh::toU64(t[3], rounds))||(rounds < 1)||(rounds > 10000000)) return false;
+   return true;
+}
+
+// ---------------------------------------------------------------------------------------------------------------------
 struct RCEngine : public vh::Engine
 {
    vh::CoopScheduler S;
@@ -649,6 +843,14 @@ struct RCEngine : public vh::Engine
 
    virtual std::string step(const std::vector<std::string> & toks)
    {
+      if ((!toks.empty())&&(toks[0] == "stress"))
+      {
+         std::string kind; uint64_t k, rounds;
+         if (!parseStress(toks, kind, k, rounds)) return "bad-op";
+         S.uninstall();      // unmanaged threads: every hook site is a pass-through
+         Stress st;
+         return st.run(kind, (uint32_t) k, rounds);
+      }
       Line L;
       if (!parseLine(toks, L)) return "bad-op";
       const std::string r = X.run(L);
@@ -899,6 +1101,18 @@ struct RCEngine : public vh::Engine
          emitLine(out, L);
       }
       g_pendingLine.clear();
+      // provocation by real, unscheduled threads (testing, not part of the model): a few lines per shard, fixed sizes per tier
+      {
+         const uint64_t f = tier.thorough ? 10 : 1;
+         fprintf(out, "case %u\n", caseNo++);
+         fprintf(out, "stress lastrefs 2 %llu\n", (unsigned long long)(200000*f));
+         fprintf(out, "stress lastrefs 3 %llu\n", (unsigned long long)(60000*f));
+         fprintf(out, "stress lastrefs 4 %llu\n", (unsigned long long)(30000*f));
+         fprintf(out, "stress churn 3 %llu\n",    (unsigned long long)(20000*f));
+         fprintf(out, "stress churn 4 %llu\n",    (unsigned long long)(10000*f));
+         fprintf(out, "stress pop 2 %llu\n",      (unsigned long long)(50000*f));
+         fprintf(out, "stress pop 4 %llu\n",      (unsigned long long)(20000*f));
+      }
    }
 };
 
@@ -909,5 +1123,6 @@ int main(int argc, char ** argv)
    CompleteSetupSystem css;
    {for (int k=1; k<=MAXN; k++) {PoolBase * p = makePool(k, 0); delete p;}}   // builds the default-object singletons before any run
    RCEngine e;
+   __sanitizer_set_death_callback(emitPendingAndDie);   // run mode too: says which stress op (and round) a sanitizer abort happened in
    return vh::harnessMain(argc, argv, e);
 }
